@@ -16,9 +16,8 @@
 (*                   larger archives chosen by the orchestrator)            *)
 (* Mode = "archives" prints the archives of the space only (no faults)      *)
 (* Faults of an archive: none, absent, Truncate(n) for EVERY n < Total      *)
-(* (AllPoints; otherwise every n up to the start of the data region and the *)
-(* boundary points of every data block and of the checksum), CorruptLen(i,  *)
-(* d) for every entry i and d in Deltas.                                    *)
+(* (AllPoints; otherwise the structural points of every record, see         *)
+(* TruncPoints), CorruptLen(i, d) for every entry i and d in Deltas.        *)
 (* With Emit = TRUE every (archive, fault) is printed as "OUT <json case>"  *)
 (* together with the byte layout and the reference outcome.                 *)
 EXTENDS Pbo, TLC, Json
@@ -36,11 +35,19 @@ MkEntries(s) == [j \in 1..Len(s) |-> [name |-> s[j][1], size |-> s[j][2],
 SpaceArchives == { [props |-> p, entries |-> MkEntries(s)] : p \in PropSeqs, s \in ShapeSeqs }
 Archives == IF Mode = "given" THEN { Given[i] : i \in DOMAIN Given } ELSE SpaceArchives
 
+\* structural truncation points of a larger archive: around the borders of every record, around the
+\* NUL between key and value / behind an entry name, around the header's size field, and 255..257
+\* bytes into a record (the reader scans strings in blocks of 256 bytes)
+RecPoints(r) == ({ r.start + d : d \in {0, 1, 2, 255, 256, 257} } \cup { r.end - d : d \in {1, 2, 4, 5, 20, 21, 22} }) \cap (r.start..(r.end - 1))
+Records(a) ==
+    LET L == Layout(a)
+    IN {L.ver, L.propsEnd, L.hdrsEnd, L.checksum} \cup { L.props[i] : i \in 1..NP(a) }
+       \cup { L.hdrs[i] : i \in 1..NE(a) } \cup { L.data[i] : i \in 1..NE(a) }
 TruncPoints(a) ==
     IF AllPoints THEN 0..(Total(a) - 1)
-    ELSE ((0..DataStart(a))
-          \cup UNION { { DataOff(a, j), DataOff(a, j) + 1, DataOff(a, j + 1) - 1 } : j \in 1..NE(a) }
-          \cup { DataEnd(a), DataEnd(a) + 1, Total(a) - 1 }) \cap (0..(Total(a) - 1))
+    ELSE (UNION { RecPoints(r) : r \in Records(a) }
+          \cup UNION { { PropOff(a, i) + Len(a.props[i][1]), PropOff(a, i) + Len(a.props[i][1]) + 1 } : i \in 1..NP(a) })
+         \cap (0..(Total(a) - 1))
 
 Faults(a) ==
          { NoFault, Absent }
@@ -65,19 +72,18 @@ Init ==
             /\ st = Start
             /\ (Emit => PrintT("OUT " \o ToJson(CaseJson(arch, fault))))
 
-Step(ph) ==
+Go ==
     /\ Mode # "archives"
     /\ st.status = "reading"
-    /\ st.phase = ph
     /\ st' = Apply(Variant, arch, fault, st)
     /\ UNCHANGED <<arch, fault>>
 
-AVersionHeader == Step("VersionHeader")
-AProp == Step("Prop")
-APropsEnd == Step("PropsEnd")
-AEntryHeader == Step("EntryHeader")
-AEntriesEnd == Step("EntriesEnd")
-ADataOffsets == Step("DataOffsets")
+AVersionHeader == st.phase = "VersionHeader" /\ Go
+AProp == st.phase = "Prop" /\ Go
+APropsEnd == st.phase = "PropsEnd" /\ Go
+AEntryHeader == st.phase = "EntryHeader" /\ Go
+AEntriesEnd == st.phase = "EntriesEnd" /\ Go
+ADataOffsets == st.phase = "DataOffsets" /\ Go
 
 Next == AVersionHeader \/ AProp \/ APropsEnd \/ AEntryHeader \/ AEntriesEnd \/ ADataOffsets
 Spec == Init /\ [][Next]_vars
